@@ -1,7 +1,10 @@
 -------------------------------- MODULE DagTrees --------------------------------
 (* Flat dag-pb trees (no variables, no constants): a tree is a function from paths (sequences of
    link names, <<>> = the root) to the data id of the node at that path, prefix-closed.
-   Data id 0 = "the directory data", other ids = leaf payloads. *)
+   Data ids are opaque to these operators.  A set D of ids is "directory data" (0 = the plain UnixFS
+   directory payload, others = directory payloads with metadata such as a mode); the other ids are
+   leaf payloads.  Directories carry their OWN data, which may differ between two trees although
+   the entries are the same (or differ too). *)
 EXTENDS Naturals, Sequences, FiniteSets
 
 NoTree == <<>>                               \* the empty function: "no node" (Before of Add, After of Remove)
@@ -17,5 +20,7 @@ Graft(T, p, S) == LET keep == DOMAIN T \ Under(T, p)
 Linkless(T, p) == \A r \in Under(T, p) : r = p
 IsTree(T)      == /\ <<>> \in DOMAIN T
                   /\ \A p \in DOMAIN T : p = <<>> \/ Parent(p) \in DOMAIN T
-IsDirTree(T)   == IsTree(T) /\ T[<<>>] = 0 /\ \A p \in DOMAIN T : T[p] # 0 => Linkless(T, p)
+DirShaped(T, D) == \A p \in DOMAIN T : T[p] \notin D => Linkless(T, p)       \* only directories have entries
+IsDirTree(T, D) == IsTree(T) /\ T[<<>>] \in D /\ DirShaped(T, D)
+SetData(T, p, d) == [T EXCEPT ![p] = d]                                        \* same entries, other own data
 =============================================================================
